@@ -30,6 +30,9 @@ type c15Dir struct {
 	// StallMs > 0: the receiver reads nothing (beyond the header that identifies the connection)
 	// for this long while the sender keeps pushing, then drains everything
 	StallMs int `json:"reader_stall_ms,omitempty"`
+	// SlowMs > 0: for this long the receiver reads only 16 KiB every 50 ms (about 320 kB/s), so that
+	// data stays in flight inside the bridge the whole time; then it drains at full speed
+	SlowMs int `json:"reader_slow_ms,omitempty"`
 }
 
 // c15Conn is one case: one bridged connection with traffic in both directions.
@@ -177,9 +180,15 @@ func (e *c15Engine) c15Recv(l *c15Live, conn net.Conn, v *bridgeVerifier, d c15D
 	for until := time.Now().Add(time.Duration(d.StallMs) * time.Millisecond); d.StallMs > 0 && time.Now().Before(until) && !l.aborted(); {
 		time.Sleep(20 * time.Millisecond) // the planned stall: flow control must hold the sender, nothing may be lost
 	}
+	slowEnd := time.Now().Add(time.Duration(d.SlowMs) * time.Millisecond)
 	for ok && v.Received < d.Len {
+		rb := buf
+		if d.SlowMs > 0 && time.Now().Before(slowEnd) {
+			time.Sleep(50 * time.Millisecond)
+			rb = buf[:min(len(buf), 16<<10)]
+		}
 		conn.SetReadDeadline(time.Now().Add(e.stall))
-		n, err := conn.Read(buf)
+		n, err := conn.Read(rb)
 		if n > 0 {
 			hist[c15ChunkClass(n)]++
 			if ok = v.Check(buf[:n]); !ok {
@@ -555,6 +564,25 @@ func c15StalledPlan(r *core.Run) []*c15Conn {
 		add(2000003, "c2s", 48<<20+1, 13000, 0)
 		add(2000004, "s2c", 48<<20+1, 13000, 0)
 	}
+	// long-lived connections: older than 30 s (thorough: 60 s) with data in flight all the time,
+	// because the receiver trickles; whatever the bridge does periodically on an established
+	// connection (keep-alives, timers) must not disturb the stream
+	long := func(idx int, dir string, n int64, slow int) {
+		big := c15Dir{Len: n, Write: 32768, Read: 65536, SlowMs: slow}
+		small := c15Dir{Len: bridgeHdrLen, Write: 1024, Read: 1024}
+		sp := &c15Conn{Idx: idx, Round: -1, Conc: 1, C2S: big, S2C: small}
+		if dir == "s2c" {
+			sp.C2S, sp.S2C = small, big
+		}
+		sp.Class = fmt.Sprintf("long-lived-slow-reader|%s|%dMiB|slow:%dms", dir, n>>20, slow)
+		out = append(out, sp)
+	}
+	long(2000005, "s2c", 24<<20+5, 31200)
+	if !r.Quick() {
+		long(2000006, "c2s", 24<<20+5, 31200)
+		long(2000007, "s2c", 56<<20+3, 62000)
+		long(2000008, "c2s", 56<<20+3, 62000)
+	}
 	return out
 }
 
@@ -621,10 +649,14 @@ func c15Streams(r *core.Run, bins bridgeBins) ([]*core.Proc, func()) {
 			cs, bad := e.judge(l, false)
 			account(l)
 			big := &l.C2S
-			if l.Spec.S2C.StallMs > 0 {
+			if l.Spec.S2C.StallMs+l.Spec.S2C.SlowMs > 0 {
 				big = &l.S2C
 			}
-			r.Add("e1_stalled_reader_bytes_delivered", int(big.Recv))
+			if l.Spec.C2S.SlowMs+l.Spec.S2C.SlowMs > 0 {
+				r.Add("e1_long_lived_slow_reader_bytes_delivered", int(big.Recv))
+			} else {
+				r.Add("e1_stalled_reader_bytes_delivered", int(big.Recv))
+			}
 			for _, c := range cs {
 				r.Inconclusive(fmt.Sprintf("stalled-reader connection %d: %s (not re-run)", l.Spec.Idx, c.what))
 			}
@@ -1000,7 +1032,7 @@ func c15E2(r *core.Run, bin string) {
 
 // C15 — the TCP bridge carries byte streams intact in both directions.
 func C15(r *core.Run) {
-	r.SetRule("E1: harness TCP clients -> real tcp-bridge-frontend -> real tcp-bridge-backend -> harness TCP server, rounds of 1/4/16/48 concurrent connections, both directions at once, each direction an independent stream header+PRNG(seed,conn,dir) written with sizes {1,2,1023,1024,1025,4096,32768,65537,random} and read with buffers {1,7,1024,65536}; every read is compared with the regenerated stream (prefix), length+SHA-256 at the end; plus one connection per direction whose receiver stalls 13-14 s while 32-48 MiB are pushed at it (flow control must hold the sender, every byte must arrive); class = (concurrency, who speaks first, per direction write size/read buffer/length class). Passthrough: grammar-generated requests of C02 plus websocket upgrades on other paths / plain and other-protocol requests on the streaming path through the backend binary to a raw recording backend under the request fidelity oracle. E2: connection.Handler/DialWebsocket/WebsocketNetConn in-process with empty writes, 1-byte reads, raw gorilla peers interleaving binary/ping/pong frames, single writes up to 16 MiB")
+	r.SetRule("E1: harness TCP clients -> real tcp-bridge-frontend -> real tcp-bridge-backend -> harness TCP server, rounds of 1/4/16/48 concurrent connections, both directions at once, each direction an independent stream header+PRNG(seed,conn,dir) written with sizes {1,2,1023,1024,1025,4096,32768,65537,random} and read with buffers {1,7,1024,65536}; every read is compared with the regenerated stream (prefix), length+SHA-256 at the end; plus one connection per direction whose receiver stalls 13-14 s while 32-48 MiB are pushed at it (flow control must hold the sender, every byte must arrive) and a connection that lives 32 s (thorough: both directions, also 63 s) with a trickling receiver so that data is in flight all the time; class = (concurrency, who speaks first, per direction write size/read buffer/length class). Passthrough: grammar-generated requests of C02 plus websocket upgrades on other paths / plain and other-protocol requests on the streaming path through the backend binary to a raw recording backend under the request fidelity oracle. E2: connection.Handler/DialWebsocket/WebsocketNetConn in-process with empty writes, 1-byte reads, raw gorilla peers interleaving binary/ping/pong frames, single writes up to 16 MiB")
 	r.Assume("passthrough: well-formed requests only (C02 generator); hop-by-hop fields are legitimately removed, upgrade requests keep Connection/Upgrade; X-Forwarded-For may gain the proxy's client address after the sender's values; only HTTP/1.1 towards the backend binary (h2c not exercised)")
 	r.Assume("a stream that stops making progress for 20 s (E1) / 10 s (E2) counts only if the same connection plan stalls again when re-run alone")
 	bins := bridgeBuild(r)
